@@ -45,6 +45,7 @@ type AwsCase struct {
 	Never     bool     `json:"never"`    // not every instance becomes ready before the deadline
 	ReadyK    int      `json:"readyK"`   // never: this many of the new instances (the first ones) do report running
 	PreFail   int      `json:"prefail"`  // consecutive failed fleet attempts before this call (never-ready)
+	PreInc    int      `json:"preInc"`   // an earlier successful IncreaseSize(preInc) on the same provider object, then a refresh
 	// del: the nodes handed to DeleteNodes, by name; a name outside m1..m<nmemb> is a foreign node
 	List []string `json:"list"`
 	DelRet string `json:"delRet"` // delinc: what DeleteNodes returned (filled in by the harness)
@@ -149,6 +150,14 @@ func runAwsCase(c AwsCase) AwsObs {
 		func() {
 			defer func() { recover() }()
 			_ = ng.IncreaseSize(1)
+		}()
+	}
+	if c.PreInc > 0 {
+		a.NeverReady = false
+		cfgTimeout(ng, 1500*time.Millisecond)
+		func() {
+			defer func() { recover() }()
+			_ = ng.IncreaseSize(int64(c.PreInc))
 		}()
 	}
 	// refresh the cache (pre-failures may have changed nothing, but keep cache = real)
